@@ -1045,6 +1045,9 @@ type EntryResult struct {
 // paths explored before the discovery used the coarser receive transitions.
 func runEntry(prog *Program, entry *ssa.Function, cfg Config, fixed map[string]uint64, prefix []Dec) *EntryResult {
 	for round := 0; ; round++ {
+		if fixed == nil {
+			arrivalMerge() // no worker is running here
+		}
 		before := atomic.LoadInt64(&arrivalNew)
 		er := runEntryOnce(prog, entry, cfg, fixed, prefix, before)
 		if fixed != nil || round >= 4 || atomic.LoadInt64(&arrivalNew) == before {
@@ -1118,7 +1121,21 @@ func runEntryOnce(prog *Program, entry *ssa.Function, cfg Config, fixed map[stri
 					return
 				}
 				ex := &Exec{prog: prog, cfg: &cfg, entry: entry, solver: solver, work: work, prefix: p, fixed: fixed}
-				ex.Run()
+				func() {
+					// an internal error of the engine on one path is reported as
+					// an error of the check (exit 3), it must not take the process down
+					defer func() {
+						if r := recover(); r != nil {
+							ex.res.Status = "error"
+							if ee, ok := r.(engineError); ok {
+								ex.res.Detail = ee.msg
+							} else {
+								ex.res.Detail = fmt.Sprint(r)
+							}
+						}
+					}()
+					ex.Run()
+				}()
 				mu.Lock()
 				er.Stats.Paths++
 				er.Stats.ByStatus[ex.res.Status]++
